@@ -39,7 +39,8 @@ import (
 // optional trailing tokens: ss=<d|z> state ID seqid = current+d (z: zero),
 // os=<d> open-owner seqid = expected+d, ls=<d> lock-owner seqid = expected+d,
 // as=L.V send through client (L,V), dn=<n> share_deny, fh=<F|-1|dD> current
-// file handle override (-1 none, dD directory D).
+// file handle override (-1 none, dD directory D), dt=<1|2> delegate type of
+// an OPEN with CLAIM_PREVIOUS (read / write delegation).
 // ---------------------------------------------------------------------------
 
 const (
@@ -189,6 +190,9 @@ type run struct {
 	// leaf whose last "open" event of this step is a call that failed inside the
 	// real leaf (nfsx logs before delegating): -1 none
 	phantomOpen int
+	// the request that completed in this step returned an error: it must not leave a leaf
+	// more open than it found it
+	stepFailed  bool
 	sharedLO    bool        // some lock-owner has locked one file through two open states (known-finding shape)
 	withhold    *request    // request that just parked in an open: its open event is withheld
 	inject      *nfsx.Event // withheld open event of the request being released
@@ -278,6 +282,7 @@ type opts struct {
 	deny  int
 	fh    string
 	park  bool
+	dt    int // delegate type of CLAIM_PREVIOUS (0 none, 1 read, 2 write)
 	extra []string
 }
 
@@ -300,6 +305,8 @@ func splitOpts(toks []string) ([]string, opts) {
 			o.deny, _ = strconv.Atoi(t[3:])
 		case strings.HasPrefix(t, "fh="):
 			o.fh = t[3:]
+		case strings.HasPrefix(t, "dt="):
+			o.dt, _ = strconv.Atoi(t[3:])
 		default:
 			pos = append(pos, t)
 		}
@@ -795,6 +802,22 @@ func (r *run) endStep() {
 		}
 		r.phantomOpen = -1
 	}
+	balBefore := map[[2]int]int{}
+	for k, v := range r.bal {
+		balBefore[k] = v
+	}
+	defer func() {
+		if r.stepFailed && !r.panicked {
+			for k, v := range r.bal {
+				if v > balBefore[k] {
+					r.failMonitor("C18", "", "%s: the request failed, yet it left leaf %d open for %s access once more than before (opens - closes %d -> %d): an open made on behalf of a refused request is never closed",
+						r.lastLine, k[0], bitName(k[1]), balBefore[k], v)
+					break
+				}
+			}
+		}
+		r.stepFailed = false
+	}()
 	for i, e := range news {
 		if i == skip {
 			continue
